@@ -1,4 +1,4 @@
-"""C01 — untrusted font data is rejected with an error, never a crash (clauses a, b, c, d, f)."""
+"""C01 — untrusted font data is rejected with an error, never a crash (clauses a-h)."""
 import arith
 import indexing
 import overflow
@@ -17,12 +17,19 @@ EXPLANATION = (
     "division by a non-constant is guarded against zero; (C01-f) every hand-written loop has a progress witness; (C01-g) every element "
     "indexing site x[i] is discharged by a constant/type-bounded index into a fixed-size array or a dominating i < x.len() on the same "
     "receiver and value, or is an audited site with a written in-range argument (ledger/index.jsonl, 257 sites read by four independent "
-    "reviewers) — a new indexing site or a removed bound check is a violation."
+    "reviewers) — a new indexing site or a removed bound check is a violation; (C01-e) every overflow-checked integer operation in scope "
+    "(MIR Overflow asserts: every subtraction in any integer type; add/mul/neg/shift/div/rem narrower than 64 bits) is discharged by interval "
+    "arithmetic over the provenance of its operands (type ranges through widening casts and From, constants, masks, shifts, min/max/clamp, "
+    "len()), by a dominating comparison or constant bound on the same SSA values, by !is_empty() for len() - 1, or as the difference of two "
+    "readings of one write counter, or is an audited site (ledger/arith.jsonl: 218 residual sites read by four independent reviewers; the "
+    "verdict 'panics' became a fix: commit, never a ledger entry); (C01-h) String operations that panic inside a multi-byte character are "
+    "applied only to strings that are ASCII by construction."
 )
 NOT_DECIDED = (
-    "integer add/mul/neg/shift/sub overflow (about 700 overflow asserts; wrap-around in release builds): proving them absent needs "
-    "relational value-range reasoning across loops and calls; running time of terminating loops "
-    "(e.g. cmap format 12 group iteration); decompression output size in WOFF/WOFF2; unsigned subtraction overflow (clause e) is not claimed."
+    "add/mul overflow in 64-bit integer types (on a 64-bit target the operands derive from <=32-bit font fields, lengths of data in memory and "
+    "counters; 32-bit targets are not decided); allocation failure; running time of terminating loops (e.g. cmap format 12 group iteration); "
+    "decompression output size in WOFF/WOFF2. Audited ledger entries state why a site is safe; when the supporting invariant lives in another "
+    "function, an edit to that function is not seen by the rule that owns the entry."
 )
 ASSUMPTIONS = ["std/core functions panic only as documented", "third-party crates (brotli, flate2, encoding_rs) do not panic on any input"]
 
